@@ -21,7 +21,8 @@ RULE = ("Hypothesis draws multi-segment, multi-chunk files (contiguous / interle
         "range of that chunk) or inside the first %d bytes of a segment between the first and last segment holding "
         "requested values; total bytes <= those regions; an index into the chunk fetched by the previous index reads "
         "nothing. One evaluation = one file with its requests; non-trivial: some request covers < 50%% of a channel "
-        "whose data spans >= 3 chunks.") % ALLOWANCE
+        "whose data spans >= 3 chunks. Shortened interleaved middle segments (byte map ends where the raw data ends) and "
+        "100+ segment twin files are included.") % ALLOWANCE
 ASSUMPTIONS = [
     "byte map of every chunk comes from the independent encoder",
     "per-segment allowance of %d bytes at the segment start (the tree reads the 4-byte tag); zero-byte reads ignored" % ALLOWANCE,
